@@ -492,6 +492,7 @@ pub fn stack_heavy_expr() -> BoxedStrategy<GE> {
             4 => (inner.clone(), inner.clone()).prop_map(|(a, b)| GE::Choice(Box::new(a), Box::new(b))),
             3 => inner.clone().prop_map(|a| GE::Opt(Box::new(a))),
             1 => inner.clone().prop_map(|a| GE::Rep(Box::new(a))),
+            1 => inner.clone().prop_map(|a| GE::RepOnce(Box::new(a))),
             1 => inner.clone().prop_map(|a| GE::Pos(Box::new(a))),
             1 => inner.clone().prop_map(|a| GE::Neg(Box::new(a))),
             1 => inner.clone().prop_map(|a| GE::Push(Box::new(a))),
@@ -544,6 +545,40 @@ pub fn terminal_heavy_grammar() -> BoxedStrategy<Gram> {
             if let Some((ty, body)) = cm {
                 g.rules.push(GRule { name: "COMMENT".into(), ty, expr: body });
             }
+            repair(&mut g);
+            g
+        })
+        .boxed()
+}
+
+/// Stack loops: two or three pushes, then a stack-consuming body under `+ * ? {1,3}` (directly, through a rule, or
+/// inside a small sequence), then something that reads the stack again; every rule modifier. The shape on which
+/// "what a failing iteration leaves on the stack" decides the rest of the parse.
+pub fn stack_loop_grammar() -> BoxedStrategy<Gram> {
+    let lit = || prop_oneof![Just("a"), Just("b"), Just("ab"), Just("")].prop_map(|s| GE::Str(s.to_string()));
+    let stack_op = || prop_oneof![4 => Just("POP"), 2 => Just("PEEK"), 1 => Just("POP_ALL"), 1 => Just("DROP"), 1 => Just("PEEK_ALL")].prop_map(GE::Builtin);
+    let body = prop_oneof![
+        4 => stack_op(),
+        3 => Just(GE::Ref(1)),
+        1 => (stack_op(), lit()).prop_map(|(o, l)| GE::Seq(Box::new(o), Box::new(GE::Opt(Box::new(l))))),
+        1 => (lit(), stack_op()).prop_map(|(l, o)| GE::Seq(Box::new(l), Box::new(o))),
+    ];
+    let tail = prop_oneof![3 => stack_op(), 1 => lit(), 1 => Just(GE::Builtin("EOI")), 1 => Just(GE::Str(String::new()))];
+    let ty0 = prop_oneof![3 => Just(Ty::Atomic), 3 => Just(Ty::Compound), 2 => Just(Ty::Normal), 1 => Just(Ty::Silent), 1 => Just(Ty::NonAtomic)];
+    (ty0, ty_strategy(), proptest::collection::vec(lit(), 2..=3), body, 0u8..6, tail, stack_op())
+        .prop_map(|(t0, t1, pushes, body, op, tail, r1body)| {
+            let looped = match op {
+                0 | 5 => GE::RepOnce(Box::new(body)),
+                1 => GE::Rep(Box::new(body)),
+                2 => GE::Opt(Box::new(body)),
+                3 => GE::RepMinMax(Box::new(body), 1, 3),
+                _ => body,
+            };
+            let mut e = GE::Seq(Box::new(looped), Box::new(tail));
+            for p in pushes.into_iter().rev() {
+                e = GE::Seq(Box::new(GE::Push(Box::new(p))), Box::new(e));
+            }
+            let mut g = Gram { rules: vec![GRule { name: "r0".into(), ty: t0, expr: e }, GRule { name: "r1".into(), ty: t1, expr: r1body }] };
             repair(&mut g);
             g
         })
